@@ -106,6 +106,12 @@ def it_next(vm, it):
         if a[1] <= 0: return None
         a[1] -= 1; return (vm.clone_val(a[0]),)
     if k == 'repeat': return (vm.clone_val(a[0]),)
+    if k == 'repeat_n_sym':
+        # symbolic count: split on its feasible values (bounded), then behave like repeat_n
+        n = vm.concretize(a[1], limit=24)
+        if n > 4096: raise PanicEdge('panic', f'repeat_n with a count of {n}: allocation beyond modest resource bounds')
+        it.kind = 'repeat_n'; it.a[1] = n
+        return it_next(vm, it)
     if k == 'flatten':
         while True:
             if a[1] is not None:
